@@ -35,7 +35,11 @@ Shapes ==
 \* an SSU2 address with introducer options (the introducer helpers and String() walk them), and one without a host
 AddrSSU == EncRouterAddress(8, Zeros(8), << 83, 83, 85, 50 >>, << << << 99, 97, 112, 115 >>, << 66, 67, 52 >> >>, << << 105, 101, 120, 112, 48 >>, << 49 >> >>,
                                                                   << << 105, 104, 48 >>, Fill(32, 1) >>, << << 105, 104, 49 >>, Fill(32, 2) >>, << << 105, 116, 97, 103, 48 >>, << 55 >> >> >>)
-ShapesS == << << "ReadRouterAddress", AddrSSU, << >> >>,
+\* key certificates with unassigned / reserved / experimental type codes (size lookups take their "unknown type" path)
+ShapesK == SeqMap(LAMBDA p : << "NewKeyCertificate", << 5, 0, 4 >> \o BE16(p[1]) \o BE16(p[2]), << >> >>,
+                  << << 9, 4 >>, << 12, 4 >>, << 20, 0 >>, << 7, 9 >>, << 65280, 4 >>, << 7, 65534 >>, << 10, 8 >> >>)
+           \o SeqMap(LAMBDA p : << "KeyCertificateFromCertificate", << 5, 0, 4 >> \o BE16(p[1]) \o BE16(p[2]), << >> >>, << << 13, 4 >>, << 7, 255 >> >>)
+ShapesS == ShapesK \o << << "ReadRouterAddress", AddrSSU, << >> >>,
               << "ReadRouterInfo", EncRouterInfo(Id("key", 7, 4), 7, Zeros(8), << AddrSSU, Addr >>, 0, Opts, 3), << >> >> >>
 \* structures that really verify (real keys and signatures put into the reference slots by the driver): Verify() then runs its whole path
 SignedShape(fn, base, st, typ) ==
